@@ -1,4 +1,5 @@
 import Pm.Dev2
+import Pm.ToBuf
 import Pm.ClientStream
 /-! helper lemmas for C08, part A: what each `_process_*` of `device.c` does, one statement kind at a time -/
 namespace Pm.Dev2.Interp
@@ -26,32 +27,48 @@ def sendText (fmt : Bytes) : Option (List Plug) → Option Bytes
 
 /-! ### A1 `_process_send` -/
 
-/-- `stmtSend` cut into pieces: the three-way choice of the `%s` argument is `sendText` -/
+/-- the telemetry line of a `send` of `s` with `d.toBuf` queued: produced unless the write overran `dev->to`
+    (`_process_send`: `else if (dropped > 0) err(…) else { … vpf_fun(…) }`) -/
+def sendTele (d : Dev) (tele : Bool) (cid : Nat) (s : Bytes) : List Out :=
+  if toOverrun d.toBuf s then [] else if tele then teleMem cid "send(dev): '" s else []
+
+theorem sendTele_below (d : Dev) (tele : Bool) (cid : Nat) (s : Bytes) (h : (d.toBuf ++ s).length ≤ 65536) :
+    sendTele d tele cid s = if tele then teleMem cid "send(dev): '" s else [] := by
+  unfold sendTele; rw [toOverrun_false_of_le _ _ h]; rfl
+
+theorem sendTele_overrun (d : Dev) (tele : Bool) (cid : Nat) (s : Bytes) (h : toOverrun d.toBuf s = true) :
+    sendTele d tele cid s = [] := by
+  unfold sendTele; rw [h]; rfl
+
+/-- `stmtSend` cut into pieces: the three-way choice of the `%s` argument is `sendText`; the text is queued behind what is
+    queued (`clipTo`: `dev->to` holds 65536 bytes, the oldest give way) -/
 def stmtSend' (d : Dev) (a : Action) (o : Oracle) (e : ExecCtx) (fmt : Bytes) : StepR :=
   if !e.processing then
     match sendText fmt e.plugs with
     | none => ⟨d, a, o, [.abortAssert "hostlist_sort assert in _process_send"], true⟩
     | some s =>
       if (d.toBuf ++ s).isEmpty then
-        ⟨{ d with toBuf := d.toBuf ++ s }, setTop a { e with processing := false }, o,
-          [.sent s] ++ (if a.telemetry then teleMem a.clientId "send(dev): '" s else []), true⟩
+        ⟨{ d with toBuf := clipTo (d.toBuf ++ s) }, setTop a { e with processing := false }, o,
+          [.sent s] ++ sendTele d a.telemetry a.clientId s, true⟩
       else
-        ⟨{ d with toBuf := d.toBuf ++ s }, setTop a { e with processing := true }, o,
-          [.sent s] ++ (if a.telemetry then teleMem a.clientId "send(dev): '" s else []), false⟩
+        ⟨{ d with toBuf := clipTo (d.toBuf ++ s) }, setTop a { e with processing := true }, o,
+          [.sent s] ++ sendTele d a.telemetry a.clientId s, false⟩
   else if d.toBuf.isEmpty then ⟨d, setTop a { e with processing := false }, o, [], true⟩
   else ⟨d, a, o, [], false⟩
 
 theorem stmtSend_eq (d : Dev) (a : Action) (o : Oracle) (e : ExecCtx) (fmt : Bytes) :
     stmtSend d a o e fmt = stmtSend' d a o e fmt := by
-  unfold stmtSend stmtSend'
+  unfold stmtSend stmtSend' sendTele
   rcases hpl : e.plugs with _ | _ | ⟨p, _ | ⟨q, r⟩⟩
-  all_goals simp only [sendText]
+  all_goals simp only [sendText, clipTo_isEmpty]
   all_goals (split <;> try rfl)
 
+/-- first visit of a `send` whose text is `s`: the text is queued behind what is queued (`clipTo`: beyond 65536 bytes the
+    oldest queued bytes give way), reported as sent, and — unless the write overran the buffer — shown to a telemetry client -/
 theorem stmtSend_fresh (d : Dev) (a : Action) (o : Oracle) (e : ExecCtx) (fmt : Bytes) (s : Bytes)
     (hp : e.processing = false) (hs : sendText fmt e.plugs = some s) :
-    (stmtSend d a o e fmt).dev = { d with toBuf := d.toBuf ++ s } ∧ (stmtSend d a o e fmt).oracle = o ∧
-    (stmtSend d a o e fmt).out = [Out.sent s] ++ (if a.telemetry then teleMem a.clientId "send(dev): '" s else []) ∧
+    (stmtSend d a o e fmt).dev = { d with toBuf := clipTo (d.toBuf ++ s) } ∧ (stmtSend d a o e fmt).oracle = o ∧
+    (stmtSend d a o e fmt).out = [Out.sent s] ++ sendTele d a.telemetry a.clientId s ∧
     (stmtSend d a o e fmt).finished = (d.toBuf ++ s).isEmpty ∧
     (stmtSend d a o e fmt).act = setTop a { e with processing := !(d.toBuf ++ s).isEmpty } := by
   rw [stmtSend_eq]; unfold stmtSend'
@@ -59,6 +76,18 @@ theorem stmtSend_fresh (d : Dev) (a : Action) (o : Oracle) (e : ExecCtx) (fmt : 
   by_cases hb : (d.toBuf ++ s).isEmpty = true
   · simp [hb]
   · simp [hb]
+
+/-- the statement as it read before the capacity of `dev->to` was modelled, under the explicit no-overflow hypothesis -/
+theorem stmtSend_fresh_below (d : Dev) (a : Action) (o : Oracle) (e : ExecCtx) (fmt : Bytes) (s : Bytes)
+    (hp : e.processing = false) (hs : sendText fmt e.plugs = some s) (hfit : (d.toBuf ++ s).length ≤ 65536) :
+    (stmtSend d a o e fmt).dev = { d with toBuf := d.toBuf ++ s } ∧ (stmtSend d a o e fmt).oracle = o ∧
+    (stmtSend d a o e fmt).out = [Out.sent s] ++ (if a.telemetry then teleMem a.clientId "send(dev): '" s else []) ∧
+    (stmtSend d a o e fmt).finished = (d.toBuf ++ s).isEmpty ∧
+    (stmtSend d a o e fmt).act = setTop a { e with processing := !(d.toBuf ++ s).isEmpty } := by
+  obtain ⟨h1, h2, h3, h4, h5⟩ := stmtSend_fresh d a o e fmt s hp hs
+  rw [clipTo_of_le _ hfit] at h1
+  rw [sendTele_below _ _ _ _ hfit] at h3
+  exact ⟨h1, h2, h3, h4, h5⟩
 
 theorem stmtSend_fresh_abort (d : Dev) (a : Action) (o : Oracle) (e : ExecCtx) (fmt : Bytes)
     (hp : e.processing = false) (hs : sendText fmt e.plugs = none) :
